@@ -12,14 +12,16 @@ LANGS = ("python", "typescript", "javascript", "rust")
 # (text, value, is_int)
 SPELL = {
     "python": (("3975", 3975, True), ("7", 7, True), ("39.75", 39.75, False), ("0xF87", 3975, True),
-               ("3_975", 3975, True), ("0xE5", 229, True), ("0b1011", 11, True), ("2.5e3", 2500.0, False)),
+               ("3_975", 3975, True), ("0xE5", 229, True), ("0b1011", 11, True), ("2.5e3", 2500.0, False),
+               ("2.718281828", 2.718281828, False), ("299792458.0", 299792458.0, False)),
     "typescript": (("3975", 3975, True), ("7", 7, True), ("39.75", 39.75, False), ("0xF87", 3975, True),
                    ("3_975", 3975, True), ("0xE5", 229, True), ("0b1011", 11, True), ("2.5e3", 2500.0, False),
-                   ("39n", 39, True)),
+                   ("39n", 39, True), ("2.718281828", 2.718281828, False), ("1234567.5", 1234567.5, False)),
     "rust": (("3975", 3975, True), ("7", 7, True), ("39.75", 39.75, False), ("0xF87", 3975, True),
              ("3_975", 3975, True), ("0xE5", 229, True), ("0b1011", 11, True), ("2.5e3", 2500.0, False),
              ("3975i32", 3975, True), ("7usize", 7, True), ("39.75f64", 39.75, False), ("0x1f32", 0x1f32, True),
-             ("0xffu8", 255, True), ("003975", 3975, True), ("6e4", 60000.0, False), ("1e-9", 1e-9, False)),
+             ("0xffu8", 255, True), ("003975", 3975, True), ("6e4", 60000.0, False), ("1e-9", 1e-9, False),
+             ("2.718281828", 2.718281828, False), ("0.6213712", 0.6213712, False)),
 }
 # sloppy-mode JavaScript also has the legacy forms: 0777 is octal (511), 089 is decimal
 SPELL["javascript"] = SPELL["typescript"] + (("0777", 511, True), ("089", 89, True))
